@@ -96,6 +96,10 @@ def run(ctx, chk):
 
     # ---- (C) library as client ------------------------------------------------------
     check_balance(chk, "C04.client", prog, eff, cache, N, B, ctors, floor=60)
+    chk.rule("C04.drain", "every NULL-returning path of cbor_load that follows a decoder call leaves through the drain loop, each round "
+             "releasing the top item and popping its record: a failed load leaves nothing behind (shared with C01.drain)")
+    from props.c01 import check_load_paths
+    check_load_paths(chk, prog, eff, R_window=None, R_drain="C04.drain", R_outcome=None)
     nuaf = 0
     for f in prog.lib_funcs():
         if f.name in ("cbor_decref", "cbor_intermediate_decref", "cbor_incref", "cbor_move"):
